@@ -12,7 +12,7 @@ for id in "$@"; do
   wt=$(mktemp -d /tmp/seedwt.XXXXXX); rmdir $wt
   git -C /repo worktree add -q --detach $wt HEAD || { echo "$id worktree-failed"; continue; }
   if git -C $wt apply "$d/patch.diff" 2>/dev/null; then
-    out=$(VERIF_OUT=$wt.out bin/govc func --repo $wt $fns 2>&1)
+    out=$(VERIF_OUT=$wt.out bin/govc func --timeout ${RT:-12} --repo $wt $fns 2>&1)
     bad=$(echo "$out" | grep -m1 "^   failed\|^   undecided\|ERROR" | awk '{print $1, $2}')
     if [ -n "$bad" ]; then echo "$id still-caught $bad"; else echo "$id NOT-CAUGHT ($fns)"; fi
   else
